@@ -9,12 +9,18 @@ BOUNDS = {
     '110': [('at_least_one_cheque', 'm.cheques@.len() >= 1')],
     '204': [('at_least_one_transaction', 'm.transactions@.len() >= 1')],
     '210': [('at_least_one_transaction', 'm.transactions@.len() >= 1')],
-    '935': [('at_least_one_rate_change', 'm.rate_changes@.len() >= 1')],
+    '935': [('at_least_one_rate_change', 'm.rate_changes@.len() >= 1'),
+            # field 37H is mandatory (and repetitive) inside every rate change sequence
+            ('a_37h_in_every_rate_change', 'every_rc_has_37h(m.rate_changes@)')],
     '920': [('sequences_1_to_100', '1 <= m.sequence@.len() <= 100')],
     '940': [('at_least_one_statement_line', 'm.statement_lines@.len() >= 1')],
 }
+SPECS = {
+    '935': ['pub open spec fn every_rc_has_37h(s: Seq<MT935RateChange>) -> bool { forall|i: int| 0 <= i < s.len() ==> (#[trigger] s[i]).field_37h@.len() >= 1 }'],
+}
 INVARIANTS = {
     '920': {0: ['sequence@.len() <= 100']},
+    '935': {0: ['every_rc_has_37h(rate_changes@)']},
 }
 
 # helper functions that parse_from_block4 of a type calls (extracted too; contract = frame on the parser)
